@@ -377,7 +377,29 @@ impl Prop for C03 {
     fn generate(&self, rc: &RunCtx) -> Case {
         let mut g = Rng::stream(rc.run_seed, "cfg");
         let cfg = producer_cfg(&mut g);
-        let prog = gen_program(rc.run_seed, &cfg);
+        let mut prog = gen_program(rc.run_seed, &cfg);
+        if rc.index % 128 == 100 {
+            // a prototype of several hundred sized attributes (the stream table of a data packet
+            // has one 16-bit entry per attribute; 255 / 256 / 257 and 511 / 512 / 513 are borders
+            // of one-byte and block-wise bookkeeping)
+            let ns = "many".to_string();
+            if !prog.calls.iter().any(|c| matches!(c, Call::RegisterExt { ns: n, .. } if *n == ns)) {
+                prog.calls.insert(0, Call::RegisterExt { ns: ns.clone(), url: "http://example.org/many-attributes".into() });
+            }
+            let extra = *g.pick(&[252usize, 253, 254, 300, 508, 509, 510, 700]);
+            let mut proto: Vec<Rec> = [0u8, 1, 2].iter().map(|i| Rec { name: Name::Std(*i), dt: DType::Double { min: None, max: None } }).collect();
+            for i in 0..extra {
+                let dt = match i % 4 {
+                    0 => DType::Int { min: 0, max: 255 },
+                    1 => DType::Int { min: -3, max: 4 },
+                    2 => DType::Single { min: None, max: None },
+                    _ => DType::Int { min: 0, max: 65535 },
+                };
+                proto.push(Rec { name: Name::Ext { ns: ns.clone(), name: format!("a{i}") }, dt });
+            }
+            let n = 1 + g.usize_below(12);
+            prog.calls.push(Call::Pc { guid: gen_guid(&mut g), proto, steps: vec![PcStep::Points { n, seed: g.next_u64() }], end: SubEnd::Finalize });
+        }
         let mut l = Rng::stream(rc.run_seed, "layout");
         let layout = Layout::draw(&mut l);
         let mut c = Rng::stream(rc.run_seed, "chunk-dev");
